@@ -223,6 +223,10 @@ def expected(T, op):
         if m == "read_subplane":
             return "array", V[a[0]:a[1], a[2]:a[3]]
     else:
+        if m == "iline_slice":
+            return "array", V[a[0]:a[1]]
+        if m == "xline_slice":
+            return "array", np.ascontiguousarray(V[:, a[0]:a[1]].transpose(1, 0, 2))
         if m in ("read_inline", "read_inline_number", "iline"):
             return "array", V[a[0]]
         if m in ("read_crossline", "read_crossline_number", "xline"):
@@ -307,6 +311,30 @@ def xarray_index(op):
 
 # --------------------------------------------------------------------------------------------------
 # executor
+PATH_FORMS = ["str", "str", "str", "path", "bytes", "fileobj"]
+
+
+def path_form(raw):
+    """The form in which the file is named to the library: chosen by the file's content, so that it is a
+    function of the case (str, pathlib.Path, bytes path, an open binary file object)."""
+    import zlib
+    return PATH_FORMS[zlib.crc32(bytes(raw[:4096])) % len(PATH_FORMS)]
+
+
+def in_form(path, form, opened=None):
+    if form == "path":
+        import pathlib
+        return pathlib.Path(path)
+    if form == "bytes":
+        return os.fsencode(path)
+    if form == "fileobj":
+        f = open(path, "rb")
+        if opened is not None:
+            opened.append(f)
+        return f
+    return path
+
+
 class Handles:
     """Opens what an operation needs, lazily, and closes everything at the end."""
     def __init__(self, path, T, reader=None):
@@ -315,19 +343,21 @@ class Handles:
         self._own_reader = reader is None
         self._emu = None
         self._xr = None
+        self._files = []
+        self.form = path_form(T.raw) if os.environ.get("VERIF_PATH_FORMS", "1") != "0" else "str"
 
     @property
     def reader(self):
         if self._reader is None:
             from seismic_zfp.read import SgzReader
-            self._reader = SgzReader(self.path)
+            self._reader = SgzReader(in_form(self.path, self.form, self._files))
         return self._reader
 
     @property
     def emu(self):
         if self._emu is None:
             import seismic_zfp
-            self._emu = seismic_zfp.open(self.path)
+            self._emu = seismic_zfp.open(in_form(self.path, self.form, self._files))
         return self._emu
 
     def xr(self, via):
@@ -335,7 +365,7 @@ class Handles:
             import xarray as xr
             # the documented way in: the registered backend, picked by the .sgz extension
             if self.path.endswith(".sgz"):
-                self._xr = xr.open_dataset(self.path)
+                self._xr = xr.open_dataset(in_form(self.path, "path" if self.form == "path" else "str"))
             else:
                 from seismic_zfp.sgz_xarray import SeismicZfpBackendEntrypoint
                 self._xr = SeismicZfpBackendEntrypoint().open_dataset(self.path)
@@ -357,6 +387,23 @@ class Handles:
                 self._xr.close()
             except Exception:
                 pass
+        for f in self._files:
+            try:
+                f.close()
+            except Exception:
+                pass
+
+
+def coord_form(v, argt):
+    """A sample coordinate in the form a caller may hold it in: the axis element itself (np.float64), a Python
+    float, a float32 or an int when the value is exactly representable as such."""
+    if argt == "np64":
+        return float(v)
+    if argt == "np32" and float(np.float32(v)) == float(v):
+        return np.float32(v)
+    if argt == "intp" and float(v).is_integer():
+        return int(v)
+    return v
 
 
 ARG_TYPES = {"int": int, "np64": np.int64, "np32": np.int32, "intp": np.intp}
@@ -381,21 +428,21 @@ def perform(H, op):
     if m == "read_zslice":
         return H.reader.read_zslice(cv(a[0]))
     if m == "read_zslice_coord":
-        return H.reader.read_zslice_coord(H.reader.zslices[a[0]])
+        return H.reader.read_zslice_coord(coord_form(H.reader.zslices[a[0]], op.get("argt")))
     if m == "read_subvolume":
         return H.reader.read_subvolume(*[cv(x) for x in a])
     if m == "read_volume":
         return H.reader.read_volume()
     if m == "tools.cube":
         import seismic_zfp
-        return seismic_zfp.tools.cube(H.path)
+        return seismic_zfp.tools.cube(in_form(H.path, "path" if H.form == "path" else "str"))
     if m == "get_trace":
         return H.reader.get_trace(cv(a[0]))
     if m == "get_trace_window":
         return H.reader.get_trace(cv(a[0]), cv(a[1]), cv(a[2]))
     if m == "get_trace_by_coord":
         z = H.reader.zslices
-        lo = None if (op["open"][0] and a[1] == 0) else z[a[1]]
+        lo = None if (op["open"][0] and a[1] == 0) else coord_form(z[a[1]], op.get("argt"))
         if a[2] == T.n_s:
             hi = None if op["open"][1] else z[-1] + (z[-1] - z[-2])   # "last value plus the last step": what a caller writes for a float axis
         else:
@@ -423,6 +470,12 @@ def perform(H, op):
         return {"hash": bytes.fromhex(h) if isinstance(h, str) else bytes(h), "text": bytes(r.file_text_header),
                 "bin": bytes(r.file_binary_header), "tracecount": int(r.tracecount), "samples": np.asarray(r.zslices, dtype=np.float64)}
     # emulator
+    if m in ("iline_slice", "xline_slice"):
+        # lines a[0] .. a[1]-1 of an ascending axis, addressed by number as segyio does: one expression, whose
+        # generator is consumed at once
+        ax, acc = (T.ilines, H.emu.iline) if m == "iline_slice" else (T.xlines, H.emu.xline)
+        stop = cv(ax[a[1]]) if a[1] < len(ax) else None
+        return np.stack([np.array(x) for x in acc[cv(ax[a[0]]):stop]])
     if m == "iline":
         return H.emu.iline[cv(T.ilines[a[0]])]
     if m == "xline":
